@@ -160,6 +160,7 @@ def run(ctx):
         raise AnalysisBroken("no `lo | hi << 32` assembly found in orcexecutor.c")
 
     d6_reuse_key(db, rep)
+    const_pool_key(db, rep, "D8-CONST-POOL-KEY")
     # the element count a native loop runs over must not depend on stale executor contents (position/n independence of the result) (shared with C03 D8)
     import emitstate as _es
     _names = {}
@@ -330,3 +331,55 @@ def d6_reuse_key(db, rep, rule="D6-REUSE-KEY"):
               "operand size %d x%d (same parameter): the second instruction reads the first one's temporary although the value loaded for it has a "
               "different lane structure (e.g. `x2 addb ..p` then `addw ..p`: p = 1 is read as 0x0101)" %
               ((clash[0][0], clash[0][1], clash[1][0], clash[1][1]) if clash else (0, 0, 0, 0)), line=node.line)
+
+
+def const_pool_key(db, rep, rule):
+    """The compiler's constant pool holds two kinds of entry, told apart by `is_long`: short ones keyed by `.value`, long ones
+    by `.full_value[]`; the other key field of an entry is meaningless (zero).  Every lookup that `break`s / returns on a
+    comparison of one key field must also test the discriminator for that kind - otherwise a request for the short constant
+    0 is answered with the register of the first long constant (whose `.value` is 0): e.g. the zero `convulq` interleaves
+    with becomes a pshufb mask, under exactly the flag subsets that create such a mask."""
+    from flow import Facts
+    tu = db.tu("orccompiler")
+    n = 0
+    for f in tu.main_functions():
+        fc = None
+        for x in f.walk():
+            if x.k != "BinaryOperator" or x.op != "==":
+                continue
+            l = strip_casts(x.c[0])
+            p_ = access_path(l) or ""
+            if l is None or "constants[" not in unparse(l):
+                continue
+            kind = "short" if unparse(l).endswith(".value") else ("long" if ".full_value" in unparse(l) else None)
+            if kind is None:
+                continue
+            # the discriminator is tested in the same condition (a conjunct of the enclosing && chain) or dominates it
+            top = x
+            while top.parent is not None and top.parent.k in ("BinaryOperator", "ParenExpr") and (top.parent.k == "ParenExpr" or top.parent.op == "&&"):
+                top = top.parent
+            want = 0 if kind == "short" else 1
+            ok = False
+            for y in top.walk():
+                if y.k == "BinaryOperator" and y.op in ("==", "!=") and unparse(strip_casts(y.c[0])).endswith(".is_long") and strip_casts(y.c[1]).v is not None:
+                    val = strip_casts(y.c[1]).v
+                    if (y.op == "==" and bool(val) == bool(want)) or (y.op == "!=" and bool(val) != bool(want)):
+                        ok = True
+                if y.k == "UnaryOperator" and y.op == "!" and unparse(strip_casts(y.c[0])).endswith(".is_long") and want == 0:
+                    ok = True
+            if not ok:
+                fc = fc or Facts(f)
+                for c_ in fc.conds(x):
+                    if c_[0] != "switch" and unparse(strip_casts(c_[0])).endswith(".is_long") and bool(c_[1]) == bool(want):
+                        ok = True
+            n += 1
+            rep.saw(f)
+            rep.check(ok, rule, where(f), "%s:%s@%s" % (f.name, kind, x.line),
+                      "the %s key of a pool entry is compared only for entries of that kind" % kind,
+                      "%s matches a constant-pool entry on its %s key (`%s`) without testing `is_long`: entries of the other kind carry 0 in that field, so a "
+                      "request for the %s constant 0 is answered with another constant's register - under the flag subsets that create such an entry the "
+                      "program computes with a shuffle mask instead of zero" % (f.name, kind, unparse(x)[:60], kind), line=x.line)
+    if n < 2:
+        raise AnalysisBroken("only %d constant-pool key comparisons found in orccompiler.c" % n)
+    return n
+
